@@ -24,6 +24,7 @@ enum { T_EINTR = 1, T_EAGAIN = 2, T_SHORT = 3 };
 enum { E_OK = 0, E_EPERM, E_ENOSYS, E_EFAULT, E_EIO, E_EINVAL, E_OPENFAIL, E_N };
 static const int ERRNO_OF[E_N] = {0, EPERM, ENOSYS, EFAULT, EIO, EINVAL, ENOENT};
 static const char *const END_NAME[E_N] = {"success", "EPERM", "ENOSYS", "EFAULT", "EIO", "EINVAL", "open-fails"};
+static int g_end_errno;      /* when non-zero: the permanent error of the running script is this errno value instead of the table's */
 
 static struct {
     int active;
@@ -36,6 +37,7 @@ static struct {
     long used[4];           /* which primitive was called: getrandom, getentropy, syscall, read (2^32+5 calls in the longest script) */
     sigjmp_buf spin;
     int spinning;
+    long long max_sleep_s; long sleeps;      /* longest pause requested between attempts (scripted time) */
 } S;
 
 static void os_bytes(uint8_t *p, size_t n) { size_t i; for (i = 0; i < n; ++i) p[i] = S.bytes[i & 31]; }
@@ -57,7 +59,40 @@ static int script_step(int *shortread)
         return 0;
     }
     if (S.end == E_OK) return 1;
-    errno = ERRNO_OF[S.end];
+    errno = g_end_errno ? g_end_errno : ERRNO_OF[S.end];
+    return 0;
+}
+
+/* a retry loop may pause between attempts; it may not go to sleep for good.  Scripted time: the request is recorded
+ * and returns at once (the verdict is on the requested duration, not on the clock). */
+#include <time.h>
+static void note_sleep(long long sec) { if (sec > S.max_sleep_s) S.max_sleep_s = sec; ++S.sleeps; }
+int nanosleep(const struct timespec *req, struct timespec *rem)
+{
+    static int (*real)(const struct timespec *, struct timespec *);
+    if (!S.active) { if (!real) real = (int (*)(const struct timespec *, struct timespec *))dlsym(RTLD_NEXT, "nanosleep"); return real(req, rem); }
+    note_sleep(req ? (long long)req->tv_sec : 0);
+    return 0;
+}
+int clock_nanosleep(clockid_t clk, int flags, const struct timespec *req, struct timespec *rem)
+{
+    static int (*real)(clockid_t, int, const struct timespec *, struct timespec *);
+    if (!S.active) { if (!real) real = (int (*)(clockid_t, int, const struct timespec *, struct timespec *))dlsym(RTLD_NEXT, "clock_nanosleep"); return real(clk, flags, req, rem); }
+    note_sleep(req && !flags ? (long long)req->tv_sec : 0);
+    return 0;
+}
+unsigned int sleep(unsigned int sec)
+{
+    static unsigned int (*real)(unsigned int);
+    if (!S.active) { if (!real) real = (unsigned int (*)(unsigned int))dlsym(RTLD_NEXT, "sleep"); return real(sec); }
+    note_sleep((long long)sec);
+    return 0;
+}
+int usleep(useconds_t us)
+{
+    static int (*real)(useconds_t);
+    if (!S.active) { if (!real) real = (int (*)(useconds_t))dlsym(RTLD_NEXT, "usleep"); return real(us); }
+    note_sleep((long long)(us / 1000000u));
     return 0;
 }
 
@@ -145,7 +180,7 @@ static int count_fds(void)
     return n;
 }
 
-static unsigned long long n_count_differs, n_usable, n_prim_used, n_eval, n_success, n_permanent, n_os_calls, n_prng, n_long, n_fd_census;
+static unsigned long long n_errno_sweep, n_sleeps, n_count_differs, n_usable, n_prim_used, n_eval, n_success, n_permanent, n_os_calls, n_prng, n_long, n_fd_census;
 static int want_prim = 0;
 
 static void run_script(const args_t *a, long idx, const unsigned char *pre, long npre, int all_eintr, int end, int via_prng)
@@ -157,8 +192,8 @@ static void run_script(const args_t *a, long idx, const unsigned char *pre, long
     char pfx[64] = "";
     for (i = 0; i < npre && i < 12 && !all_eintr; ++i) pfx[i] = pre[i] == T_EINTR ? 'I' : pre[i] == T_EAGAIN ? 'A' : 'S';
     pfx[i < 12 ? (all_eintr ? 0 : i) : 12] = 0;
-    set_case("{\"h\":\"trng\",\"variant\":\"%s\",\"i\":%ld,\"prefix\":\"%s\",\"prefix_len\":%ld,\"all_eintr\":%d,\"end\":\"%s\",\"via_prng\":%d}",
-             a->mode, idx, pfx, npre, all_eintr, END_NAME[end], via_prng);
+    set_case("{\"h\":\"trng\",\"variant\":\"%s\",\"i\":%ld,\"prefix\":\"%s\",\"prefix_len\":%ld,\"all_eintr\":%d,\"end\":\"%s\",\"end_errno\":%d,\"via_prng\":%d}",
+             a->mode, idx, pfx, npre, all_eintr, END_NAME[end], end == E_OK ? 0 : g_end_errno ? g_end_errno : ERRNO_OF[end], via_prng);
     ++n_eval;
     cls_add(mix64((uint64_t)idx, (uint64_t)(end * 2 + via_prng)));
     if (idx % 1499 == 0 || a->only >= 0) emit_sample();
@@ -214,7 +249,8 @@ static void run_script(const args_t *a, long idx, const unsigned char *pre, long
             for (i = 0; i < 32; ++i) if (buf[i]) { emit_viol("trng-buffer-not-zeroed", "seed buffer byte %d is %02x after a permanent failure (%s)", i, buf[i], END_NAME[end]); break; }
         }
     }
-    n_os_calls += (unsigned long long)S.pos;
+    n_os_calls += (unsigned long long)S.pos; n_sleeps += (unsigned long long)S.sleeps;
+    if (S.max_sleep_s >= 3600) emit_viol("trng-sleeps-unbounded", "between attempts the source asked to sleep for %lld seconds", S.max_sleep_s);
     /* The number of OS calls is recorded, not judged: a conforming source may probe or re-read.  Giving up early shows as a
      * wrong status / buffer above, never returning shows as "trng-spins". */
     if (S.pos != expect_calls) ++n_count_differs;
@@ -246,6 +282,14 @@ int main(int argc, char **argv)
             }
         }
     }
+    /* every errno value is some system's permanent error: 1..133 except the two transient ones, alone and after one EINTR */
+    { int en;
+      for (en = 1; en <= 133; ++en) for (k = 0; k < 2; ++k, ++idx) {
+          if (en == EINTR || en == EAGAIN || !mine(&a, idx)) continue;
+          pre[0] = T_EINTR; g_end_errno = en;
+          run_script(&a, idx, pre, k, 0, E_EPERM, (int)((idx / 3) % 7 == 0)); ++n_errno_sweep;
+          g_end_errno = 0;
+      } }
     /* "any finite number": long all-EINTR prefixes */
     { static const long LONGS[] = {1000, 100000, 16777221L, 4294967301L};       /* ..., 2^24+5, 2^32+5 (thorough: counters of any width) */
       int nl = a.thorough ? 4 : 3;
@@ -253,7 +297,7 @@ int main(int argc, char **argv)
     emit_stat("evaluations", n_eval); emit_stat("scripts_ending_in_success", n_success); emit_stat("scripts_ending_in_permanent_error", n_permanent);
     emit_stat("os_entropy_calls_observed", n_os_calls); emit_stat("scripts_through_prng_init", n_prng); emit_stat("long_prefix_scripts", n_long);
     emit_stat("scripts_where_os_call_count_differs_from_script_length", n_count_differs); emit_stat("fd_census_comparisons", n_fd_census); emit_stat("prng_usability_runs_after_fault", n_usable);
-    emit_stat("scripts_that_reached_the_variants_primitive", n_prim_used);
+    emit_stat("scripts_that_reached_the_variants_primitive", n_prim_used); emit_stat("scripts_in_the_errno_sweep", n_errno_sweep); emit_stat("pauses_requested_between_attempts", n_sleeps);
     if (n_eval > 10 && n_prim_used == 0 && !g_nviol) {      /* the instrument never saw the call it is supposed to script */
         fprintf(stderr, "build variant %s never called its OS primitive: harness does not reach the code\n", a.mode);
         return 2;
